@@ -21,6 +21,7 @@ Prog1 == << [k |-> "set", which |-> "clm", v |-> Val("int", "cbc", WOf(1), 0), m
 Prog2 == << [k |-> "del", which |-> "clm", v |-> Val("int", NONE, W0, 0), map |-> 0],
             [k |-> "set", which |-> "hdr", v |-> Val("str", "typ", "cb", 1), map |-> 0] >>
 Core == { BM("set", "hdr", Val("str", "typ", "x", 0)), BM("set", "hdr", Val("str", "alg", "none", 1)),
+          BM("set", "hdr", Val("int", "typ", WOf(7), 1)), BM("set", "hdr", Val("bool", "alg", 1, 1)),
           BM("set", "clm", Val("int", "iat", WOf(5), 1)), BM("set", "clm", Val("int", "exp", WOf(7), 0)),
           BM("set", "clm", Val("str", "sub", "s", 0)), BM("del", "clm", Val("int", "sub", W0, 0)),
           Iat(0), Iat(1), Off("exp", 3600), Off("exp", 0), Off("nbf", 60), Off("nbf", -5),
